@@ -117,7 +117,11 @@ func RunE2(t *testing.T, p *Program, withLog bool) *RunResult {
 		res.Trouble = "root panic: " + bo.Panic
 	}
 	if bo.Leaked && res.Violation == nil && res.Trouble == "" {
-		res.Violation = &Violation{Tags: []string{"C20", "C16"}, Oracle: "leak.goroutine", Msg: "goroutines were still blocked inside rosmar after every feed was stopped and every handle closed"}
+		tags := []string{"C20", "C16"}
+		if p.Scenario == "openclose" {
+			tags = []string{"C13", "C20"}
+		}
+		res.Violation = &Violation{Tags: tags, Oracle: "leak.goroutine", Msg: "goroutines (feeds, timers or database connections) were still alive inside rosmar after every feed was stopped, every handle closed and the bucket deleted"}
 	}
 	return res
 }
@@ -373,6 +377,7 @@ func (e *e2) client(ti int) {
 		}
 	}
 	ops := e.p.Tasks[ti]
+	mine := 0 // the handle this client opened last (ops with Handle == -1 use it)
 	for i := range ops {
 		op := ops[i] // copy: resolved fields stay out of the program
 		k := fmt.Sprintf("%d/%s", op.Coll, op.Key)
@@ -389,6 +394,9 @@ func (e *e2) client(ti int) {
 		default:
 			op.CasArg = 0
 		}
+		if op.Handle == -1 {
+			op.Handle = mine
+		}
 		h := &HistEntry{Task: ti, Idx: i, Op: op}
 		e.mu.Lock()
 		e.hist = append(e.hist, h)
@@ -397,6 +405,9 @@ func (e *e2) client(ti int) {
 		h.Res = e.execE2(&h.Op, ctx)
 		h.Ret = e.seq.Add(1)
 		h.Done = true
+		if op.Kind == "OpenHandle" && h.Res.Err == "" {
+			mine = int(h.Res.Val)
+		}
 		if c := h.Res.Cas; c != 0 && h.Res.Err == "" {
 			if last[k] != 0 && last[k] != c {
 				stale[k] = last[k]
@@ -430,11 +441,17 @@ func isControlKind(k string) bool {
 // execE2 runs a data operation or a control operation.
 func (e *e2) execE2(op *Op, ctx *OpCtx) Res {
 	if !isControlKind(op.Kind) {
+		e.mu.Lock()
 		h := op.Handle
-		if h >= len(e.w.Handles) {
+		if h >= len(e.w.Handles) || h < 0 {
 			h = 0
 		}
-		return Exec(e.w.Colls[h][op.Coll], e.w.Handles[h], op, nowUnix(), ctx)
+		ds, b := e.w.Colls[h][op.Coll], e.w.Handles[h]
+		e.mu.Unlock()
+		if ds == nil {
+			return Res{Err: EClosed, ErrText: "no data store (handle closed)"}
+		}
+		return Exec(ds, b, op, nowUnix(), ctx)
 	}
 	return e.control(op, ctx)
 }
@@ -528,6 +545,8 @@ func (e *e2) judge() {
 		e.judgeCheckpoint(hist)
 	case "term":
 		e.judgeTermination(hist)
+	case "openclose":
+		e.judgeOpenClose(hist)
 	}
 }
 
